@@ -2,6 +2,7 @@ PROP = dict(
     id="C04",
     engines=["c04"],
     go_tags=["c04"],
+    gen_files={"MM/Gen/C04.lean": "c04"},
     lean_modules=["MM.Props.C04"],
     theorems=[
         "MM.C04.C04_same_key",
@@ -9,9 +10,9 @@ PROP = dict(
         "MM.C04.C04_key_not_on_wire",
         "MM.C04.C04_transit_reads_nothing",
         "MM.C04.C04_active_refuted_mitm",
-        "MM.C04.C04_active_partial",
         "MM.C04.C04_pinned_zero_key_downgrade",
-        "MM.C04.C04_fixed_zero_key_refused",
+        "MM.C04.C04_ingress_fixed_zero_key",
+        "MM.C04.C04_active_partial",
         "MM.C04.C04_pinned_fallback_kinds",
     ],
     spec=True,
@@ -21,6 +22,7 @@ PROP = dict(
          "(0..40000 bytes), agent.deriveICMPSessionKey / deriveResponderSessionKey with an all-zero and an honest remote key; mesh ops: three real agents "
          "in-process (SOCKS5 ingress - transit - exit, loopback QUIC) with a tap on every frame the transit receives; tunnels: SOCKS5 CONNECT and configured port "
          "forward (32 B..64 KiB, thorough 1 MiB), SOCKS5 UDP ASSOCIATE (32..1400 B), file upload+download (32 B..70 KB), remote shell echo; random payloads; "
+         "plus an ACTIVE transit for UDP (the tap zeroes the key fields of UDP_OPEN / UDP_OPEN_ACK before relaying); "
          "output = echoed, number of tapped frames containing the payload, per direction the plain byte count of the data frames (length - 28) and header "
          "prefix/counter sequence; all ops non-trivial",
     trusted_base=[
@@ -29,14 +31,18 @@ PROP = dict(
         "the mesh ops cover TCP, port forward, UDP, file transfer and shell tunnels; ICMP (needs raw-socket privileges) is covered by the unit ops, the model and C03's call-site table only",
     ],
     assumptions=[
-        "honest ingress and exit; the transit relays open/ack frames unmodified (the active variant is refuted: see C04_active_refuted_*)",
+        "honest ingress and exit; the transit relays open/ack frames unmodified (the active variant is refuted: see C04_active_refuted_mitm / C04_pinned_zero_key_downgrade)",
+        "C04_active_partial: an exit in plaintext mode has bytes to relay downstream only in answer to datagrams / echo requests the ingress relayed "
+        "(UDP replies, ICMP echo replies) — gating in wireWith",
+        "which zero-key table describes the tree is probed on the compiled code (MM/Gen/C04.lean) and used by the engine's predictions; the theorems hold for every table",
     ],
     manifest=dict(
         category="proof",
         text="Lean theorems over a symbolic model of all six tunnel kinds: behind a relaying transit every application chunk is sealed under the session key "
              "(C04_payload_sealed), no key material is ever a frame field for any transit behaviour (C04_key_not_on_wire), the transit reads no application atom "
              "(C04_transit_reads_nothing); the active variant is machine-refuted by key substitution (ephemeral keys are unauthenticated) with C04_active_partial "
-             "(forward-or-zero tampering leaks nothing, all kinds) as the true restriction; the pinned zero-key plaintext downgrade of UDP/ICMP is repaired; tied to the code by unit-level differential ops and a 3-agent in-process mesh with a transit tap",
+             "(ingress never falls back + forward-or-zero tampering => nothing leaks, all kinds) as the true restriction and C04_pinned_zero_key_downgrade as the "
+             "witness for the pinned UDP/ICMP fallback; tied to the code by unit-level differential ops and a 3-agent in-process mesh with a transit tap",
         design_ref="DESIGN.md section 5 C04",
         note="symbolic model (computational secrecy assumed); mesh tap covers tcp/forward/udp/file/shell tunnels, not ICMP; key-substituting transit out of scope of the proved statement",
         technique="Lean 4 proof (symbolic model) + differential correspondence harness (unit ops + in-process mesh tap)",
